@@ -18,11 +18,17 @@ func VerifC34Flush() {
 	s.Topics.Subscribe("c1", sub)
 	cl.State.Subscriptions.Add("t", sub)
 	entered, steps := 0, vParam("STEPS", 4)
+	oversize := 0        // messages entered that exceed the client's Maximum Packet Size (a permitted omission)
 	lastRefused := false // the most recent WritePacket was refused as too large for the client
 	for i := 0; i < steps; i++ {
 		switch vChoose(3) {
 		case 0: // a message for the client enters publishToClient
 			n := vLen(vParam("PAYLOAD", 12))
+			// a v5 QoS 0 PUBLISH to topic "t" without alias: 2 header + 3 topic + 1 property length + 5 message
+			// expiry interval (the server's default maximum is applied to every message) + payload
+			if mps := cl.Properties.Props.MaximumPacketSize; mps > 0 && uint32(11+n) > mps {
+				oversize++
+			}
 			s.publishToSubscribers(packets.Packet{FixedHeader: packets.FixedHeader{Type: packets.Publish}, TopicName: "t", Payload: make([]byte, n), Origin: "pub"})
 			entered++
 		case 1: // a direct write (e.g. an acknowledgement) while the queue is in whatever state it is
@@ -66,11 +72,11 @@ func VerifC34Flush() {
 			pubs++
 		}
 	}
-	vAssert("every-unwritten-message-was-a-reported-drop", pubs+h.dropped >= entered || cl.Properties.Props.MaximumPacketSize > 0)
-	if cl.Properties.Props.MaximumPacketSize > 0 {
-		// a packet exceeding the client's maximum size is a permitted omission, but it is only logged
+	if oversize > 0 {
+		// recorded class: a packet exceeding the client's maximum size is a permitted omission, but it is only logged
 		vAssert("kf-oversize-drop-not-reported-to-hooks", pubs+h.dropped >= entered)
 	}
+	vAssert("every-unwritten-message-was-oversize-or-a-reported-drop", pubs+h.dropped+oversize >= entered)
 	vReach("end")
 }
 
